@@ -30,6 +30,7 @@ pub fn cfg_of(v: &Value, db: bool) -> Cfg {
         karorder: ob("karorder"),
         numpad: true,
         db,
+        altdb: false,
     }
 }
 
